@@ -320,7 +320,7 @@ func (e *Env) c19Combinator(name string, run *ssa.Function) {
 		return
 	}
 	// helpers are looked through, the recursion itself stays visible as a call
-	csy := p.NewSymbolizer(func(f *ssa.Function) bool { return f != comb && (f.Object() == nil || !f.Object().Exported()) })
+	csy := p.NewSymbolizer(func(f *ssa.Function) bool { return f != comb && isPrivateFunc(f) })
 	found := false
 	for _, n := range gc.Nodes {
 		if !n.IsBuiltin("append") || n.Kind == core.KAfter || len(n.Call.Args) < 2 {
